@@ -163,6 +163,15 @@ pub fn line_alphabet() -> Vec<(&'static str, &'static str)> {
         ("indented_insert", "  +e(5)"),
         // creating a KG that already exists fails at execution time
         ("kgcreate_existing", ".kg create B"),
+        // a read-only statement on the current KG, and statements that NAME the KG they act on (owner-only)
+        ("rellist", ".rel"),
+        ("kgdrop_b", ".kg drop B"),
+        ("aclgrant_b", ".kg acl grant B bob owner"),
+        // a meta command split over two lines (each line alone is not a statement)
+        ("userdrop_head", ".user drop"),
+        ("bare_username", "u"),
+        ("aclgrant_head", ".kg acl grant"),
+        ("aclgrant_args", "B bob owner"),
     ]
 }
 
@@ -277,11 +286,19 @@ fn c27_one(p: &[usize], id: Ident, alpha: &[(&'static str, &'static str)]) -> Ve
             ));
         }
     }
+    // dropping a KG and managing its ACLs are the owner's alone
+    for (kg, role_idx) in [("A", id.a), ("B", id.b)] {
+        if before.contains_key(kg) && !after.contains_key(kg) && role_idx != 3 {
+            out.push((format!("{sh}:kg_dropped_without_owner_role:role_{}", KGROLE[role_idx as usize]), format!("identity global={role} A={} B={}; program [{}] submitted on A dropped KG {kg}; reply {:?}", KGROLE[id.a as usize], KGROLE[id.b as usize], program_names(p, alpha), messages(&res))));
+        }
+    }
     // the internal KG must never change through a non-admin request
     if before.get(INTERNAL_KG) != after.get(INTERNAL_KG) {
-        // creating C auto-grants an owner ACL to the creator: allowed only when C was created by a permitted identity
+        // creating C auto-grants an owner ACL to the creator: allowed only when C was created by a permitted identity;
+        // B's owner may grant access to B and, dropping B, removes its ACL rows
         let created_c = after.contains_key("C") && !before.contains_key("C");
-        if !(created_c && id.global == 1) {
+        let owner_of_b_acts = id.b == 3 && p.iter().any(|i| matches!(alpha[*i].0, "aclgrant_b" | "kgdrop_b" | "aclgrant_head"));
+        if !(created_c && id.global == 1) && !owner_of_b_acts {
             out.push((format!("{sh}:internal_kg_changed"), format!("program [{}] by global {role}: _internal changed", program_names(p, alpha))));
         }
     }
